@@ -69,9 +69,9 @@ CHECKS["C01"] = ("E2-sim + E3-puppet",
 CHECKS["C02"] = ("E2-sim",
   "fault-placement enumeration over the baseline exchange of the real daemons (virtual clock) + proptest pairs; success oracle",
   "Acknowledged mode; for 6 sizes x 6 NAK procedures x CRC x closure every placement of one fault (drop, 2 duplicates, 2 delays) over every datagram ordinal of either direction is executed "
-  "(exhaustive), all pairs of faults in thorough (a rotating third of the grid) and sampled pairs in quick; destination == source, receiver's first and sender's Finished indication are "
+  "(exhaustive), all pairs of faults in thorough (a rotating third of the grid) and sampled pairs in quick; plus, per configuration with at least two segments, a five-loss script in which no PDU is lost three times in a row (two first-pass segments, one retransmission, the next two NAKs; ordinals learned adaptively), so that recovery takes several NAK rounds; destination == source, receiver's first and sender's Finished indication are "
   "(NoError, Complete, Retained), both transactions gone at the end.",
-  "F < limit=3, Ti > Ta,Tn. Placement enumeration is exhaustive only for F=1 (and the stated subset for F=2).",
+  "F < limit=3, Ti > Ta,Tn. Placement enumeration is exhaustive only for F=1 (and the stated subset for F=2); the five-loss script is one pattern per configuration.",
   "DESIGN.md §5 C02")
 CHECKS["C03"] = ("E2-sim",
   "exhaustive blackout-from-every-ordinal and kind-selective silence over a configuration grid + proptest combinations and a chaos family (user requests + faults), the latter also coverage-guided by libFuzzer over a scenario choice tape in the thorough tier; bounded-time oracle on the virtual clock with a liveness probe, a busy-loop detector hook and a post-run health check",
